@@ -52,7 +52,7 @@ Parse(prog) == [i \in 1..Len(prog) |->
     [] it.k = "imml" -> Mk("imml", i, 4, None, it.m, it.a, it.b, it.t, it.f, it.n)
     [] it.k = "dw" -> Mk("dw", i, 4, None, "dw", 0, 0, it.t, it.f, it.n)
     [] it.k = "align" -> Mk("align", i, it.n, None, "", 0, 0, "", "", it.n)
-    [] it.k \in {"data", "gap"} -> Mk("data", i, it.n, None, "", 0, 0, "", "", it.n)
+    [] it.k \in {"data", "gap", "raw"} -> Mk("data", i, it.n, None, "", 0, 0, "", "", it.n)
     [] OTHER -> \* pseudo-instructions: pins pbr pj li lil
          Mk("pseudo", i, IF it.k \in {"li", "lil"} \/ (it.k = "pj" /\ it.m \in {"call", "tail"}) THEN 8 ELSE 4,
             None, it.m, it.a, it.b, it.t, it.f, it.n) @@ [pk |-> it.k, vb |-> it.b, vc |-> it.c]]
